@@ -54,9 +54,9 @@ def enc(v):
     if v is None:
         return NONE
     if isinstance(v, str):
-        return S(v) if len(v) <= 64 and all(c in CH for c in v) else OUT
+        return S(v) if len(v) <= 4096 and all(c in CH for c in v) else OUT
     if isinstance(v, tuple):
-        if len(v) > 16:
+        if len(v) > 256:
             return OUT
         el = [enc(x) for x in v]
         return OUT if any(x['k'] in ('out', 'dflt') for x in el) else {'k': 'tup', 'v': el}
@@ -204,8 +204,9 @@ def vars_of(e):
 
 def node_class(e):
     t = e['t']
-    if t == 'idx':
-        return 'index' if e['i']['t'] == 'lit' else 'computed-index'
+    if t == 'idx':      # a negative literal is a unary minus node, not a constant
+        const = e['i']['t'] == 'lit' and not (e['i']['v']['k'] == 'int' and e['i']['v']['v'] < 0)
+        return 'index' if const else 'computed-index'
     if t == 'var':
         return 'var-' + e['acc']
     return {'un': 'unary', 'bin': 'arith', 'cmp': 'compare', 'bool': 'boolop', 'if': 'ifexp', 'tup': 'tuple',
@@ -244,6 +245,20 @@ def exprs_of_size(n, memo):
     return out
 
 
+def count_of_size(n, memo=None):
+    """Number of ASTs with n nodes (the recurrence behind exprs_of_size, without building them)."""
+    memo = {} if memo is None else memo
+    if n not in memo:
+        if n == 1:
+            memo[n] = len(LEAVES)
+        else:
+            c = lambda k: count_of_size(k, memo)     # noqa: E731
+            two = len(BINOPS) + len(CMPOPS) + len(BOOLOPS) + 2
+            memo[n] = ((len(UNOPS) + 1) * c(n - 1) + sum(two * c(i) * c(n - 1 - i) for i in range(1, n - 1))
+                       + sum(c(i) * c(j) * c(n - 1 - i - j) for i in range(1, n - 2) for j in range(1, n - 1 - i)))
+    return memo[n]
+
+
 # random bigger expressions over an extended leaf set (floats, negative ints, index-style access, parameters)
 X_LITS = ENUM_LITS + [I(3), I(5), I(-1), I(-2), S('b'), S('ab')]
 X_VARS = [var('ma'), var('mb'), var('px'), var('p2x'), var('st'), var('sw'), var('cv'), var('kp'), var('kq'),
@@ -251,7 +266,31 @@ X_VARS = [var('ma'), var('mb'), var('px'), var('p2x'), var('st'), var('sw'), var
 X_FLOATS = [0.0, 0.5, 1.5, 2.0, -1.0]
 
 
-def rand_expr(rnd, n, in_exp=False):
+def rand_expr(rnd, n, in_exp=False, basic=False):
+    """A random AST with n nodes (basic: over the leaves of the exhaustive enumeration only)."""
+    if basic:
+        if n <= 1:
+            return rnd.choice(LEAVES)
+        forms = ['un'] * 2 + ['tup1'] + (['bin'] * 8 + ['cmp'] * 6 + ['bool'] * 2 + ['idx', 'tup2'] if n >= 3 else []) + (
+            ['if'] * 3 if n >= 4 else [])
+        f = rnd.choice(forms)
+        if f == 'un':
+            return un(rnd.choice(UNOPS), rand_expr(rnd, n - 1, basic=True))
+        if f == 'tup1':
+            return tup(rand_expr(rnd, n - 1, basic=True))
+        if f == 'if':
+            i = rnd.randint(1, n - 3)
+            j = rnd.randint(1, n - 2 - i)
+            return if_(rand_expr(rnd, i, basic=True), rand_expr(rnd, j, basic=True), rand_expr(rnd, n - 1 - i - j, basic=True))
+        i = rnd.randint(1, n - 2)
+        a, b = rand_expr(rnd, i, basic=True), rand_expr(rnd, n - 1 - i, basic=True)
+        if f == 'bin':
+            return bin_(rnd.choice(BINOPS), a, b)
+        if f == 'cmp':
+            return cmp_(rnd.choice(CMPOPS), a, b)
+        if f == 'bool':
+            return bool_(rnd.choice(BOOLOPS), a, b)
+        return idx(a, b) if f == 'idx' else tup(a, b)
     if n <= 1:
         x = rnd.random()
         if x < 0.07:
@@ -290,6 +329,7 @@ ENVS_A = [mkenv(NONE, I(2), (I(0), I(1)), I(2), I(0), I(0), I(1)),
           mkenv(I(3), NONE, (I(2), I(0)), I(1), I(1), I(5), S('a')),
           mkenv(S('a'), I(0), (I(1), I(3)), I(3), I(0), I(2), NONE)]
 ENV_B = mkenv(I(1), NONE, (I(0), I(0)), I(2), I(0), I(0), I(1))
+ENV_B0 = dict(ENV_B, game=False)       # no game running at the start
 MVALS = [I(0), I(1), I(3), S('a')]
 PVALS = [I(0), I(1), I(2)]
 SVALS = [I(1), I(2), I(3)]
@@ -348,7 +388,9 @@ def py_eval(src, ns):
         return 'type', None
     except ZeroDivisionError:
         return 'zerodiv', None
-    except (NameError, _Missing):
+    except NameError:
+        return 'noname', None
+    except _Missing:
         return 'missing', None
     except Exception:  # pylint: disable=broad-except
         return 'other', None
@@ -370,8 +412,9 @@ def slug(s):
     return ''.join(c if c.isalnum() else '-' for c in s).strip('-')
 
 
-def C(i, name, expr, ep=True, hnd=True):
-    return {'id': i, 'name': name, 'expr': expr, 'vars': sorted(vars_of(expr)), 'ep': ep, 'hnd': hnd, 'src': render(expr)}
+def C(i, name, expr, ep=True, hnd=True, cls='attr', ge=True):
+    return {'id': i, 'name': name, 'expr': expr, 'vars': sorted(vars_of(expr)), 'ep': ep, 'hnd': hnd, 'src': render(expr),
+            'cls': cls, 'ge': ge}
 
 
 MA, MB, PX, P2X, ST, SW, CV = var('ma'), var('mb'), var('px'), var('p2x'), var('st'), var('sw'), var('cv')
@@ -395,10 +438,10 @@ TABLE = [
     C(16, 'counter-value-ge', cmp_('ge', CV, L(2))),
     C(17, 'counter-plus-player-var', bin_('add', CV, PX)),
     C(18, 'ifexp-branches', if_(SW, MA, ST)),
-    C(19, 'ifexp-failing-branch', if_(MA, bin_('add', MB, L(1)), L(5))),
-    C(20, 'machine-var-by-index', var('ma', 'idx')),
-    C(21, 'device-attr-by-index', cmp_('eq', var('sw', 'idx'), L(1))),
-    C(22, 'player-var-by-index', cmp_('gt', var('px', 'idx'), L(0))),
+    C(19, 'ifexp-failing-branch', if_(MA, bin_('add', MB, L(1)), L(5)), cls='ifexp-failing-branch'),
+    C(20, 'machine-var-by-index', var('ma', 'idx'), cls='index'),
+    C(21, 'device-attr-by-index', cmp_('eq', var('sw', 'idx'), L(1)), cls='index'),
+    C(22, 'player-var-by-index', cmp_('gt', var('px', 'idx'), L(0)), ep=False, cls='index', ge=False),
     C(23, 'not-unset-var', un('not', MB)),
     C(24, 'and-of-compares', bool_('and', cmp_('gt', MA, L(1)), cmp_('gt', PX, L(1)))),
     C(25, 'or-of-compares', bool_('or', cmp_('eq', MA, L(1)), cmp_('eq', ST, L(3)))),
@@ -488,7 +531,10 @@ def install_env(h, env, restart=False):
     for name, key in (('a', 'ma'), ('b', 'mb')):
         v = dec(env[key])
         if v is None:
-            m.variables.machine_vars.pop(name, None)      # unset
+            if name in m.variables.machine_vars:          # unset: tell subscribers first, then drop the variable
+                m.variables.set_machine_var(name, None)
+                _run(h, 3)
+                m.variables.machine_vars.pop(name, None)
         else:
             m.variables.set_machine_var(name, v)
     m.settings.set_setting_value('st', dec(env['st']))
@@ -525,7 +571,7 @@ def tpl_outcome(fn, pyk, pyv):
     return {'kind': 'value', 'val': enc(r), 'eq': pyk == 'value' and deep_eq(r, pyv), '_repr': repr(r)[:80]}
 
 
-def monitor_ok(py, t, exc_on_missing):
+def monitor_ok(py, t, exc_on_noname):
     """Mirror of MonitorOK in TemplatesTrace.tla (used only to label failures; TLC decides)."""
     k = py['kind']
     if k == 'value':
@@ -533,7 +579,9 @@ def monitor_ok(py, t, exc_on_missing):
     if k == 'type':
         return t['kind'] == 'default'
     if k == 'missing':
-        return t['kind'] == 'default' or (exc_on_missing and t['kind'] == 'exc')
+        return t['kind'] == 'default'
+    if k == 'noname':
+        return t['kind'] == 'default' or (exc_on_noname and t['kind'] == 'exc')
     if k == 'zerodiv':
         return t['kind'] == 'exc'
     return True
@@ -547,7 +595,7 @@ def symptom(py, t):
         return {'value': 'wrong-value', 'default': 'value-defaulted', 'exc': 'value-raises'}[tk]
     if k == 'type':
         return 'typeerror-not-defaulted' if tk == 'exc' else 'typeerror-gives-value'
-    if k == 'missing':
+    if k in ('missing', 'noname'):
         return 'missing-raises' if tk == 'exc' else 'missing-gives-value'
     if k == 'zerodiv':
         return 'zerodiv-defaulted' if tk == 'default' else 'zerodiv-gives-value'
@@ -591,6 +639,8 @@ def minimal_failure(h, expr, env, ns):
                 sym = symptom(e['py'], e['ts']) + '-on-subscribe'
             else:
                 sym = 'only-in-context'
+            if node_class(expr) == 'computed-index' and 'exc' in (e['te']['kind'], e['ts']['kind']):
+                sym = 'unsupported'       # one root cause: a non-constant subscript is rejected (TypeError(ast node))
             return {'cls': node_class(expr), 'sym': sym, 'src': e['_src'], 'py': e['py']['kind'] + ' ' + e['_py'],
                     'te': e['te'].get('_repr', e['te'].get('_exc', e['te']['kind'])),
                     'ts': e['ts'].get('_repr', e['ts'].get('_exc', e['ts']['kind']))}
@@ -634,6 +684,7 @@ class Auto:
         self.last = None
         self.future = None
         self.stopped = False
+        self.evals = 0
         self._update(None)
 
     def _update(self, future):
@@ -644,6 +695,7 @@ class Auto:
                 return
         if self.machine.stop_future.done() or self.stopped:
             return
+        self.evals += 1
         try:
             value, subscription = self.template.evaluate_and_subscribe([])
         except Exception as ex:  # pylint: disable=broad-except
@@ -667,23 +719,24 @@ def encv(v):
 
 
 def exec_schedule(job):
-    mdir, cid, sched = job
+    mdir, cid, sched = job[:3]
+    env0 = job[3] if len(job) > 3 else ENV_B
     try:
-        return _exec_b(mdir, cid, sched)
+        return _exec_b(mdir, cid, sched, env0)
     except Exception as ex:  # pylint: disable=broad-except
         import traceback
         _H['dirty'] = True
         c = TAB[cid]
-        return {'cfg': {'id': cid, 'expr': c['expr'], 'vars': c['vars'], 'ep': c['ep']}, 'env0': ENV_B,
+        return {'cfg': {'id': cid, 'expr': c['expr'], 'vars': c['vars'], 'ep': c['ep']}, 'env0': env0,
                 'ev': [{'op': 'crash', 'what': repr(ex)[:300]}], '_tb': traceback.format_exc()[-1500:]}
 
 
-def _exec_b(mdir, cid, sched):
+def _exec_b(mdir, cid, sched, env0):
     h = _machine(mdir)
     m = h.machine
     c = TAB[cid]
     _H.pop('env', None)
-    install_env(h, ENV_B, restart=True)
+    install_env(h, env0, restart=True)
     pm = m.placeholder_manager
     tp = pm.build_raw_template(c['src'], DFLT)
     chk = pm.build_raw_template(c['src'], DFLT)
@@ -704,10 +757,22 @@ def _exec_b(mdir, cid, sched):
 
     def obs(rec, ep0):
         rec.update({'done': bool(st['fut'].done()), 'alast': encv(auto.last), 'fired': counts()[0] > ep0,
-                    '_fresh': fresh(), '_last': encv(st['val'])})
+                    '_fresh': fresh(), '_last': encv(st['val']), '_reevaluated': auto.evals > st.get('evals', 0)})
+        st['evals'] = auto.evals
         ev.append(rec)
 
     ev.append({'op': 'obs', 'val': encv(st['val']), 'alast': encv(auto.last), 'done': bool(st['fut'].done())})
+    st['evals'] = auto.evals
+    # The event_player entry lives across schedules.  If it holds a stale value at the start (a consequence of a
+    # missed notification in an earlier schedule or during setup), its posts are not judged in this schedule.
+    ep = c['ep']
+    if ep:
+        try:
+            held = m.event_player.instances['_global']['event_player'].get(c['src'], None)
+            now = pm.build_raw_template(c['src']).evaluate({})
+            ep = (held == now) and (type(held) is type(now))      # pylint: disable=unidiomatic-typecheck
+        except Exception:  # pylint: disable=broad-except
+            ep = False
     try:
         for s in sched:
             op = s['op']
@@ -769,58 +834,70 @@ def _exec_b(mdir, cid, sched):
         st['fut'].cancel()
         auto.stop()
         _run(h, 2)
-    return {'cfg': {'id': cid, 'expr': c['expr'], 'vars': c['vars'], 'ep': c['ep']}, 'env0': ENV_B, 'ev': ev}
+    return {'cfg': {'id': cid, 'expr': c['expr'], 'vars': c['vars'], 'ep': ep}, 'env0': env0, 'ev': ev, '_ep_judged': ep}
 
 
-def b_symptom(fe):
+def b_symptom(fe, cls='attr'):
     """Label a rejected step of part B from the driver's own ground truth (a fresh evaluate after the step)."""
     op = fe.get('op', '?')
+    if op == 'set' and cls != 'index':
+        op = 'set-' + {'ma': 'mvar', 'mb': 'mvar', 'st': 'setting', 'sw': 'device', 'cv': 'device', 'px': 'player'}[fe['var']]
     if op in ('reeval', 'obs'):
         return op + '-wrong-value'
     if op == 'post':
         return 'post-handler-' + ('ran-on-false' if fe.get('hfired') else 'skipped-on-true')
     if op == 'crash':
         return 'crash'
-    stale_auto = fe.get('alast') != fe.get('_fresh')
-    stale_manual = (not fe.get('done')) and fe.get('_last') != fe.get('_fresh')
-    if stale_auto or stale_manual:
-        return op + '-not-notified-stale'
     if not fe.get('done'):
-        return op + '-not-notified'
+        return op + '-not-notified'             # the subscriber's future did not complete
+    if fe.get('alast') != fe.get('_fresh'):     # the re-evaluating consumer holds an old value: was it notified at all?
+        return op + ('-consumer-stale' if fe.get('_reevaluated') else '-not-notified')
     return op + '-observation-mismatch'
 
 
 # ----------------------------------------------------------------------------------------------- TLC plumbing
-def mc_module(nsize):
-    def sset(xs):
-        return '{' + ', '.join(to_tla(x) for x in xs) + '}'
-    cfgs = ',\n   '.join(to_tla({'id': c['id'], 'expr': c['expr'], 'vars': set(c['vars']), 'ep': c['ep']}) for c in TABLE)
-    return """----------------------------- MODULE TemplatesMC -----------------------------
+def _sset(xs):
+    return '{' + ', '.join(to_tla(x) for x in xs) + '}'
+
+
+def _vals_defs():
+    return 'MCMVals == %s\nMCPVals == %s\nMCSVals == %s\nMCWVals == %s\nMCCVals == %s' % (
+        _sset(MVALS), _sset(PVALS), _sset(SVALS), _sset(WVALS), _sset(CVALS))
+
+
+def mc_module_a():
+    return """----------------------------- MODULE TemplatesMCA -----------------------------
 EXTENDS Templates
-MCEnvsA == %s
-MCConfigsA == {[id |-> 0, expr |-> e, vars |-> {}, ep |-> FALSE] : e \\in ExprsUpTo(%d)}
-MCEnvsB == {%s}
-MCConfigsB == {%s}
-MCMVals == %s
-MCPVals == %s
-MCSVals == %s
-MCWVals == %s
-MCCVals == %s
+MCEnvs == %s
+MCConfigs == {}
+%s
 ASSUME OpsDistinct
 =============================================================================
-""" % (sset(ENVS_A), nsize, to_tla(ENV_B), cfgs, sset(MVALS), sset(PVALS), sset(SVALS), sset(WVALS), sset(CVALS))
+""" % (_sset(ENVS_A), _vals_defs())
+
+
+def mc_module_b():
+    cfgs = ',\n   '.join(to_tla({'id': c['id'], 'expr': c['expr'], 'vars': set(c['vars']), 'ep': c['ep'], 'ge': c['ge']}) for c in TABLE)
+    return """----------------------------- MODULE TemplatesMCB -----------------------------
+EXTENDS Templates
+MCEnvs == {%s, %s}
+MCConfigs == {%s}
+%s
+=============================================================================
+""" % (to_tla(ENV_B), to_tla(ENV_B0), cfgs, _vals_defs())
 
 
 CFG = """SPECIFICATION %s
 CONSTANTS
-  Configs <- %s
-  Envs <- %s
+  Configs <- MCConfigs
+  Envs <- MCEnvs
   MVals <- MCMVals
   PVals <- MCPVals
   SVals <- MCSVals
   WVals <- MCWVals
   CVals <- MCCVals
   MaxOps = %d
+  MaxSize = %d
   Spurious = %s
 %sCHECK_DEADLOCK FALSE
 """
@@ -836,6 +913,7 @@ CONSTANTS
   WVals <- TConfigs
   CVals <- TConfigs
   MaxOps = 1000000
+  MaxSize = 0
   Spurious = {TRUE, FALSE}
 INVARIANT Reporter
 CHECK_DEADLOCK FALSE
@@ -856,6 +934,48 @@ HAND = [
 ]
 
 
+def extended_cases():
+    """A fixed family around every leaf of the extended set (so that each seed sees the same classes)."""
+    out = []
+    leaves = X_VARS + [flit(f) for f in X_FLOATS] + [lit(v) for v in X_LITS]
+    for x in leaves:
+        out += [x, un('neg', x), un('not', x), cmp_('lt', L(5), x), cmp_('lt', x, L(5)), cmp_('eq', x, x),
+                bool_('and', L(1), x), bool_('or', x, L(2)), bool_('and', x, lit(S('a'))), bin_('add', x, L(1)),
+                bin_('mul', x, L(2)), bin_('div', L(1), x), bin_('mod', L(5), x), bin_('pow', L(2), x),
+                if_(x, x, L(0)), if_(L(0), L(1), x), tup(x), idx(x, L(0)), idx(lit(S('ab')), x), idx(tup(L(1), x), L(1)),
+                un('neg', un('neg', x)), cmp_('ge', bin_('sub', x, L(1)), L(0))]
+    return out
+
+
+def diagnose_all(wd, traces, ids):
+    """One VERBOSE run over all rejected traces: the furthest position TLC reached in each -> failing line."""
+    import json
+    import re
+    out = {}
+    ids = list(ids)
+    for b0 in range(0, len(ids), 300):
+        part = ids[b0:b0 + 300]
+        path = os.path.join(wd, 'diag.ndjson')
+        with open(path, 'w') as f:
+            for k, i in enumerate(part):
+                rec = {k2: v2 for k2, v2 in traces[i].items() if not k2.startswith('_')}
+                rec['tid'] = k + 1
+                f.write(json.dumps(rec, separators=(',', ':')) + '\n')
+        r = tlc.check(wd, 'TemplatesTrace', 'Trace.cfg', workers=4, timeout=1200, env={'TRACE_FILE': path, 'VERBOSE': '1'})
+        if not r.ok:
+            raise tlc.TLCError('diagnosis run failed: %s\n%s' % (r.errors[:3], r.out[-2000:]))
+        reached = {}
+        for m in re.finditer(r'AT (\d+) (\d+)', r.out):
+            t, ln = int(m.group(1)), int(m.group(2))
+            reached[t] = max(reached.get(t, 0), ln)
+        for k, i in enumerate(part):
+            mx = reached.get(k + 1, 0)
+            ev = traces[i].get('ev', [])
+            out[i] = {'line': mx, 'failing_event': ev[mx - 1] if 0 < mx <= len(ev) else None,
+                      'prev_event': ev[mx - 2] if 1 < mx <= len(ev) + 1 else None}
+    return out
+
+
 def part_a_cases(ctx):
     """[(env, [exprs])]: exhaustive small sizes over all environments, then samples."""
     memo = {}
@@ -864,10 +984,11 @@ def part_a_cases(ctx):
     exh = [e for n in range(1, nfull + 1) for e in exprs_of_size(n, memo)]
     for env in ENVS_A:
         jobs.append((env, exh))
-    nxt = exprs_of_size(nfull + 1, memo)
     rnd = random.Random(1000 + ctx.seed)
     if ctx.quick:
-        nxt = rnd.sample(nxt, 6000)
+        nxt = rnd.sample(exprs_of_size(nfull + 1, memo), 6000)
+    else:
+        nxt = [rand_expr(rnd, nfull + 1, basic=True) for _ in range(60000)]
     for k, env in enumerate(ENVS_A):           # the next size: each expression under one of the environments
         jobs.append((env, nxt[k::len(ENVS_A)]))
     nrand = 6000 if ctx.quick else 150000
@@ -877,31 +998,37 @@ def part_a_cases(ctx):
         per[k % len(xenvs)].append(rand_expr(rnd, rnd.randint(3, 7)))
     for env, ex in zip(xenvs, per):
         jobs.append((env, ex))
+    for env in xenvs:
+        jobs.append((env, extended_cases()))
     return jobs, len(exh), nfull
 
 
 def run(ctx):
     mdir = write_machine(ctx.scratch)
     wd = tlc.prepare(ctx.scratch, 'Templates', 'templates')
-    nmc = 3 if ctx.quick else 4
-    with open(wd + '/TemplatesMC.tla', 'w') as f:
-        f.write(mc_module(nmc))
+    nmc = 3 if ctx.quick else 4       # (5 nodes: 4.9M states, ~5-8 min; verified once by hand)
+    with open(wd + '/TemplatesMCA.tla', 'w') as f:
+        f.write(mc_module_a())
+    with open(wd + '/TemplatesMCB.tla', 'w') as f:
+        f.write(mc_module_b())
     # ---- part A: TLC enumerates every AST up to nmc nodes under every environment; Eval / Deps total
     with open(wd + '/A.cfg', 'w') as f:
-        f.write(CFG % ('Spec', 'MCConfigsA', 'MCEnvsA', 0, '{FALSE}', 'INVARIANT EvalTotal\n'))
-    r = tlc.expect_ok(tlc.check(wd, 'TemplatesMC', 'A.cfg', timeout=3000), 'Templates enumeration (part A)')
-    ctx.add_tlc('TemplatesMC/A', r, {'ast_nodes': nmc, 'envs': len(ENVS_A)})
+        f.write(CFG % ('SpecA', 0, nmc, '{FALSE}', 'INVARIANT EvalTotalA\n'))
+    r = tlc.expect_ok(tlc.check(wd, 'TemplatesMCA', 'A.cfg', timeout=3000), 'Templates enumeration (part A)')
+    ctx.add_tlc('TemplatesMCA', r, {'ast_nodes': nmc, 'envs': len(ENVS_A)})
     memo = {}
-    nexpr = sum(len(exprs_of_size(n, memo)) for n in range(1, nmc + 1))
+    if any(len(exprs_of_size(n, memo)) != count_of_size(n) for n in range(1, 5)):
+        raise tlc.TLCError('exprs_of_size and count_of_size disagree')
+    nexpr = sum(count_of_size(n) for n in range(1, nmc + 1))
     if r.distinct != nexpr * len(ENVS_A):
         raise tlc.TLCError('driver and TLC enumerate different AST sets: %d x %d envs vs %d states' % (
             nexpr, len(ENVS_A), r.distinct))
     # ---- part B: freshness state machine
     mo = 4 if ctx.quick else 6
     with open(wd + '/B.cfg', 'w') as f:
-        f.write(CFG % ('Spec', 'MCConfigsB', 'MCEnvsB', mo, '{FALSE}', PROPS_B))
-    r = tlc.expect_ok(tlc.check(wd, 'TemplatesMC', 'B.cfg', timeout=3000), 'Templates freshness design check (part B)')
-    ctx.add_tlc('TemplatesMC/B', r, {'configs': len(TABLE), 'MaxOps': mo})
+        f.write(CFG % ('Spec', mo, 0, '{FALSE}', PROPS_B))
+    r = tlc.expect_ok(tlc.check(wd, 'TemplatesMCB', 'B.cfg', timeout=3000), 'Templates freshness design check (part B)')
+    ctx.add_tlc('TemplatesMCB', r, {'configs': len(TABLE), 'MaxOps': mo})
     ctx.coverage['monitors'] += ['EvalTotal', 'OpsDistinct', 'NoStaleAtRest', 'AutoFresh', 'Notified', 'ReevalCurrent',
                                  'trace:OracleOK', 'trace:MonitorOK', 'trace:ModelOK', 'trace:Obs']
     with open(wd + '/Trace.cfg', 'w') as f:
@@ -948,51 +1075,57 @@ def run(ctx):
     ctx.coverage['semantics_rejections'] = per_sig
     # ---- part B on the real code
     with open(wd + '/Gen.cfg', 'w') as f:
-        f.write(CFG % ('Spec', 'MCConfigsB', 'MCEnvsB', 14, '{FALSE}', ''))
-    behs, _ = tlc.simulate(wd, 'TemplatesMC', 'Gen.cfg', num=640 if ctx.quick else 8000, depth=12 if ctx.quick else 15,
+        f.write(CFG % ('Spec', 14, 0, '{FALSE}', ''))
+    behs, _ = tlc.simulate(wd, 'TemplatesMCB', 'Gen.cfg', num=1280 if ctx.quick else 8000, depth=12 if ctx.quick else 15,
                            seed=ctx.seed)
-    jobs = [(mdir, b[0]['cfg']['id'], [_act(s['act']) for s in b]) for b in behs]
+    jobs = [(mdir, b[0]['cfg']['id'], [_act(s['act']) for s in b], ENV_B if b[0]['env']['game'] else ENV_B0) for b in behs]
     jobs += [(mdir, cid, sched) for cid, sched in HAND]
     btr = harness.pmap(exec_schedule, jobs, chunk=4, item_timeout=300)
-    vb = tlc.validate_traces(wd, 'TemplatesTrace', 'Trace.cfg', btr, diagnose=True, timeout=3000)
-    # every rejected configuration gets at least one diagnosed representative
-    for _ in range(12):
-        have = {btr[i]['cfg']['id'] for i, info in vb.rejected.items() if info.get('line') is not None}
-        todo = {}
-        for i, info in vb.rejected.items():
-            if info.get('line') is None and btr[i]['cfg']['id'] not in have:
-                todo.setdefault(btr[i]['cfg']['id'], i)
-        if not todo:
-            break
-        ids = sorted(todo.values())[:8]
-        v2 = tlc.validate_traces(wd, 'TemplatesTrace', 'Trace.cfg', [btr[i] for i in ids], diagnose=True, timeout=3000)
-        for k, i in enumerate(ids):
-            if k in v2.rejected:
-                vb.rejected[i] = v2.rejected[k]
+    vb = tlc.validate_traces(wd, 'TemplatesTrace', 'Trace.cfg', btr, diagnose=False, timeout=3000)
+    for i, info in diagnose_all(wd, btr, sorted(vb.rejected)).items():
+        vb.rejected[i].update(info)
     ctx.add_trace_verdict('TemplatesTrace/B', vb, len(btr))
     ctx.coverage['configs_exercised'] = sorted({j[1] for j in jobs})
     okb = [t for i, t in enumerate(btr) if i in vb.accepted]
     if okb:
         ctx.sample({'kind': 'freshness-trace', 'template': TAB[okb[0]['cfg']['id']]['src'],
                     'trace': [{k: x for k, x in e.items() if not k.startswith('_')} for e in okb[0]['ev'][:8]]})
+    bsig = {}
     for i, info in sorted(vb.rejected.items()):
-        if info.get('line') is None:
-            continue
         t = btr[i]
         fe = info.get('failing_event') or {}
         if fe.get('op') == 'crash':
             ctx.log('part B crash: %s' % t.get('_tb'))
         c = TAB[t['cfg']['id']]
-        ctx.violation('C16:freshness:%s:%s' % (c['name'], b_symptom(fe)),
-                      'template %r: step %s not explained by the Templates spec at line %s (previous step %s)' % (
-                          c['src'], fe, info.get('line'), info.get('prev_event')),
-                      {'part': 'B', 'cid': t['cfg']['id'], 'sched': jobs[i][2], 'trace': t, 'info': info})
+        sig = 'C16:freshness:%s:%s' % (c['cls'], b_symptom(fe, c['cls']))
+        bsig[sig] = bsig.get(sig, 0) + 1
+        if bsig[sig] > 3:
+            continue
+        pub = {k: x for k, x in fe.items() if not k.startswith('_')}
+        ctx.violation(sig,
+                      'template %r: step %s is not explained by the Templates spec (trace line %s): subscriber future '
+                      'done=%s, re-evaluating consumer %s and holds %s, a fresh evaluation now gives %s; previous step %s' % (
+                          c['src'], pub, info.get('line'), fe.get('done'),
+                          'was re-run' if fe.get('_reevaluated') else 'was not re-run', _vstr(fe.get('alast')),
+                          _vstr(fe.get('_fresh')), {k: x for k, x in (info.get('prev_event') or {}).items()
+                                                    if not k.startswith('_')}),
+                      {'part': 'B', 'cid': t['cfg']['id'], 'sched': jobs[i][2], 'env0': t['env0'], 'trace': t, 'info': info})
+    ctx.coverage['freshness_rejections'] = bsig
     ctx.assumptions += [
         'and/or are judged against Python with all operands evaluated (as the statement says), not short-circuit eval',
         'a result of None counts as "the default"; evaluate_and_subscribe may raise instead of defaulting for an '
         'undefined bare name (deliberate AssertionError in evaluate_and_subscribe_template)',
         'freshness: a read that cannot influence the outcome while another operand keeps aborting need not notify',
         'virtual time; game changes are driven by the fake-game test helpers (start_game/add_player/drain/stop)']
+
+
+def _vstr(r):
+    if not isinstance(r, dict):
+        return '-'
+    try:
+        return repr(dec(r))
+    except (ValueError, KeyError):
+        return {'dflt': 'the default', 'exc': 'an exception'}.get(r.get('k'), str(r))
 
 
 def _envstr(env):
@@ -1013,7 +1146,7 @@ def replay(ctx, data):
         print('replay case:', tr['ev'][0])
         print('smallest failing sub-expression:', tr.get('_min'))
     else:
-        tr = exec_schedule((mdir, d['cid'], d['sched']))
+        tr = exec_schedule((mdir, d['cid'], d['sched'], d.get('env0', ENV_B)))
         print('template:', TAB[d['cid']]['src'])
         for e in tr['ev']:
             print('  ', e)
